@@ -32,6 +32,8 @@ let rec int_of_pos = function XH -> 1 | XO p -> 2 * int_of_pos p | XI p -> 2 * i
 let small_int_of_z = function Z0 -> 0 | Zpos p -> int_of_pos p | Zneg p -> - (int_of_pos p)
 let rec pos_bits = function XH -> 1 | XO p | XI p -> 1 + pos_bits p
 let z_fits = function Z0 -> true | Zpos p | Zneg p -> pos_bits p <= 60
+(* machine-int view of a Z that saturates instead of wrapping (OCaml ints have 63 bits; the cases carry math.MaxInt) *)
+let clamp_int_of_z z = if z_fits z then small_int_of_z z else (match z with Zneg _ -> - (1 lsl 60) | _ -> 1 lsl 60)
 let string_of_z z =
   if z_fits z then string_of_int (small_int_of_z z)
   else begin
